@@ -203,6 +203,13 @@ def pmap(fn, items, chunksize=None, procs=None, timeout=None, batch=None):
         for r in res:
             if isinstance(r, dict) and "__worker_error__" in r:
                 raise MachineryError("worker failed:\n" + r["__worker_error__"])
+        # an item without result is run once more in a child of its own before the verdict stands (a batch child that is starved on
+        # a loaded machine must not be mistaken for a parse that does not return; a real hang fails the second time as well)
+        failed = [i for i, r in enumerate(res) if isinstance(r, dict) and ("__timeout__" in r or "__died__" in r)]
+        if 0 < len(failed) <= 32:
+            res2 = pmap(fn, [items[i] for i in failed], procs=procs, timeout=timeout)
+            for i, r in zip(failed, res2):
+                res[i] = r
         return res
     if procs <= 1:
         res = [_call(x) for x in items]
